@@ -398,6 +398,11 @@ def run(case, ctx):
         for p in perms:
             order = [groups[i] for i in p]
             doc = lines + order
+            objs = []
+            if rng.random() < 0.5:
+                # the group lines are given as Line objects which the caller keeps
+                objs = [gfapy.Line(x, version="gfa2") for x in order]
+                doc = lines + objs
             rr = call(ctx, "Gfa(list)", gfapy.Gfa, doc, version="gfa2")
             ctx.count("multiline_orders")
             if not rr.ok:
@@ -424,6 +429,21 @@ def run(case, ctx):
             if got_tags != wt:
                 ctx.violation("multiline-tags-not-union/%s" % grp.record_type, "order %r: tags %r, expected %r" % (order, got_tags, wt))
                 return
+            # exactly one of the line objects is the group of the Gfa; the others are not
+            # connected any more (an edit through them must not reach the Gfa)
+            stale = [o for o in objs if o.is_connected() and o is not grp]
+            if stale:
+                ctx.violation("merged-group-line-still-connected/%s" % grp.record_type,
+                              "arrival order %r: %d earlier line object(s) still claim to belong to the Gfa"
+                              % (order, len(stale)))
+                return
+            for o in objs:
+                if o is not grp:
+                    ctx.count("stale_objects_checked")
+                    call(ctx, "rename through an earlier line object", lambda: setattr(o, "name", "zz9"))
+                    if g.line("g1") is not grp:
+                        ctx.violation("edit-of-merged-line-object-reaches-gfa/%s" % grp.record_type, repr(order))
+                        return
             if len(g.sets) + len(g.paths) != 1:
                 ctx.violation("multiline-group-not-merged", "%r -> %r" % (order, [str(x) for x in g.sets + g.paths]))
                 return
